@@ -67,6 +67,7 @@ CODES = {
     114: 'search with offset + limit above MaxInt64 killed the process (repaired by d9d61df; a recurrence is a violation)',
     115: 'GET collection whose stored alpha is NaN: 500 (NaN refused at creation since 7915fec; a recurrence is a violation)',
     116: 'search whose answer carries a stored NaN/Inf value: 500',
+    119: 'a v1 insert / update was accepted although the property `vector` of the collection is not a vamana index, or although a vector is not as long as the dimension of the index the property really has',
     118: 'after the request a stored point is larger than the point size limit of the plan of its collection (e.g. an update that is small on its own but grows the stored point over the limit is applied)',
     117: 'MessagePack body nested about a million levels deep: fatal stack overflow, the process dies',
     121: 'collection creation with alpha outside the documented interval (NaN) accepted (repaired by 7915fec; a recurrence is a violation)',
@@ -99,3 +100,4 @@ LEVEL = {
                  'tags and Validate bodies) + structured-mutation and raw-byte streams over the real HTTP stack of both API versions',
 }
 CFG['rule'] = CFG['rule'] + ' ' + 'Stored sizes: after every recorded request every shard is asked for the raw stored data of the known ids; a point larger than the MaxPointSize of its collection plan is code 118 (sequences plan:update-merged-size-over / plan:update-replaced-size-at: 140 stored bytes + an update of 120 bytes under a limit of 200). Collection ids: the binding tag alphanum is part of the documented limits (doc_create2 / doc_create1), a created collection whose id has another character is code 102.'
+CFG['rule'] = CFG['rule'] + ' ' + 'Stray parameter block: a v2 collection whose property vector is a flat index of dimension 3 with an unvalidated vamana block of dimension 5, then v1 inserts with 5 and with 3 components and a v2 search (code 119).'
